@@ -597,15 +597,18 @@ def _parse_xsd_duration(value: str) -> Duration:
     match = DURATION_RE.match(value)
     if not match:
         raise ValueError("Value is not a valid XSD duration string")
-    res = Duration(years=int(match[2][:-1]) if match[2] else 0,
-                   months=int(match[3][:-1]) if match[3] else 0,
-                   days=int(match[4][:-1]) if match[4] else 0,
-                   hours=int(match[6][:-1]) if match[6] else 0,
-                   minutes=int(match[7][:-1]) if match[7] else 0,
-                   seconds=int(match[9]) if match[8] else 0,
-                   microseconds=_parse_xsd_fraction(match[10]))
-    if match[1]:
-        res = -res
+    try:
+        res = Duration(years=int(match[2][:-1]) if match[2] else 0,
+                       months=int(match[3][:-1]) if match[3] else 0,
+                       days=int(match[4][:-1]) if match[4] else 0,
+                       hours=int(match[6][:-1]) if match[6] else 0,
+                       minutes=int(match[7][:-1]) if match[7] else 0,
+                       seconds=int(match[9]) if match[8] else 0,
+                       microseconds=_parse_xsd_fraction(match[10]))
+        if match[1]:
+            res = -res
+    except OverflowError as e:
+        raise ValueError("XSD duration is out of the representable range") from e
     return res
 
 
